@@ -59,6 +59,8 @@ Explain(full) ==
             /\ InsertCollideS(Ev.d, Ev.p, Ev.b, Ev.k, Ev.c) /\ uid' = Ev.post.uid
             /\ UPart(full, InsertCollideU(Ev.d, Ev.p, Ev.b, Ev.k))
             /\ Ev.outcome = "panic" /\ PostMatches
+      [] Ev.op = "bad" ->
+            /\ BadCall(Ev.kind, Ev.d, Ev.r) /\ Ev.outcome = "panic" /\ PostMatches
       [] Ev.op = "destroy" ->
             /\ DestroyS(Ev.d, Ev.r) /\ uid' = Ev.post.uid /\ UPart(full, DestroyU(Ev.d, Ev.r)) /\ PostMatches
       [] Ev.op = "transfer" ->
